@@ -88,6 +88,8 @@ static int loop_start(m_ctx_t *c, int max_events) {
 
 static uint8_t loop_stop(m_ctx_t *c) {
     c->state = M_CTX_IDLE;
+    /* Callbacks run by the final flush may deregister the last module: the context is released at the end, not under our feet */
+    c->keep++;
     
     /* Publish loop stopped system message */
     tell_system_pubsub_msg(NULL, c, NULL, M_PS_CTX_STOPPED);
@@ -115,6 +117,7 @@ static uint8_t loop_stop(m_ctx_t *c) {
     c->stats.idle_time = 0;
 
     int ret = c->quit_code;
+    c->keep--;
     
     /*
      * ctx cannot be deregistered while looping,
